@@ -247,8 +247,14 @@ pub proof fn lemma_trunc_day(v: int)
     }
 }
 
-// the (unspecified here) result of Timestamp::add_days; Kani proves its range and classification
-pub uninterp spec fn spec_ts_add_days(v: int, days: f64) -> Option<int>;
+// Timestamp::add_days: the day count scaled to microseconds and rounded in IEEE arithmetic (named operations,
+// 20_units.rs), converted to an integer, added exactly; None when the product is not finite or the sum leaves the range
+pub open spec fn spec_ts_days_us(days: f64) -> f64 { spec_ieee_round(spec_ieee_mul(days, spec_ieee_from_i64(86_400_000_000))) }
+pub open spec fn spec_ts_add_days(v: int, days: f64) -> Option<int> {
+    let m = spec_ts_days_us(days);
+    if spec_ieee_is_infinite(m) || spec_ieee_is_nan(m) { None }
+    else if ts_in_range(v + spec_ieee_to_i64(m)) { Some(v + spec_ieee_to_i64(m)) } else { None }
+}
 
 // nearest whole second, ties away from zero
 pub open spec fn round_sec(u: int) -> int {
